@@ -59,7 +59,8 @@ def cases(draw):
         "calls": calls,
         "context": draw(st.sampled_from(["outside", "outside", "inside"])),
         "ko_genes": draw(st.lists(st.integers(0, 10), max_size=2)),
-        "pending": draw(st.lists(st.tuples(st.sampled_from(["knock_out", "bounds", "objective", "direction"]), st.integers(0, 30)), max_size=2)),
+        "pending": draw(st.lists(st.tuples(st.sampled_from(["knock_out", "bounds", "objective", "direction", "fix_objective"]), st.integers(0, 30)), max_size=2)),
+        "fixed": draw(st.sampled_from([None, None, None, "before"])),
         "universal": draw(st.lists(st.tuples(st.integers(0, 4), st.integers(0, 4), st.booleans()), max_size=3)),
     }
 
@@ -242,6 +243,16 @@ def check_case(case, ctx):
         if len(model.genes):
             model.genes[k % len(model.genes)].knock_out()
             classes.append("~knocked-out-genes")
+    if case.get("fixed") == "before":
+        # the model carries the row an earlier fix_objective_as_constraint left behind (default name, objective untouched
+        # since): analyses that fix the objective themselves meet it (since seeded change C13-9)
+        from cobra.util.solver import fix_objective_as_constraint
+
+        try:
+            fix_objective_as_constraint(model, fraction=0.5)
+            classes.append("~fixed-objective-row-present")
+        except Exception:  # noqa: BLE001 - no optimum: nothing to fix
+            pass
     outer = observe.snapshot(model)
     if case["context"] == "inside":
         model.__enter__()
@@ -255,6 +266,14 @@ def check_case(case, ctx):
                 r.bounds = (-7, 7)
             elif kind == "objective":
                 model.objective = r
+            elif kind == "fix_objective":
+                from cobra.util.solver import fix_objective_as_constraint
+
+                try:
+                    fix_objective_as_constraint(model, fraction=0.5)
+                    classes.append("~fixed-objective-row-present")
+                except Exception:  # noqa: BLE001
+                    pass
             else:
                 model.objective_direction = "min" if model.objective_direction == "max" else "max"
     nontrivial = False
@@ -305,6 +324,17 @@ def check_case(case, ctx):
                     continue
                 _v("blocked:unbounded-vertex-dependent", f"model with a reaction of unbounded flux: first call {'raised ' + repr(exc1) if exc1 else 'returned ' + str(res1)}, "
                                                          f"second call {'raised ' + repr(exc2) if exc2 else 'returned ' + str(res2)}")
+            if "~fixed-objective-row-present" in classes and ((exc1 is None) != (exc2 is None) or (exc1 is None and res1 is not None and not _same(res1, res2))):
+                # an analysis that fixes the objective itself replaces a row of the same (default) name for its duration -
+                # the user's row is ignored by the first call; the objective it restores has a new name, so the second
+                # call leaves the user's row alone (known finding fixed-objective-row-replaced). The model comparison
+                # above is not affected by this and stays in force.
+                if "fixed-objective-row-replaced" in ctx.known:
+                    ctx.excluded_by("fixed-objective-row-replaced")
+                    continue
+                _v("analysis:fixed-objective-row-replaced", f"{name} on a model that carries a row left by fix_objective_as_constraint: first call "
+                                                            f"{'raised ' + repr(exc1) if exc1 else 'returned ' + str(res1)[:120]}, second call "
+                                                            f"{'raised ' + repr(exc2) if exc2 else 'returned ' + str(res2)[:120]}")
             if (exc1 is None) != (exc2 is None):
                 _v(f"{name}:not-repeatable", f"first call {'raised ' + repr(exc1) if exc1 else 'returned'}, second call {'raised ' + repr(exc2) if exc2 else 'returned'}")
             if exc1 is None and res1 is not None and not _same(res1, res2):
